@@ -7,7 +7,8 @@ From TLV Require Import Base.Ops Model.Prox Proofs.ProxProofs Proofs.ProxProofsH
   Proofs.ProxProofsSimplex Proofs.ProxProofsMono Proofs.ProxProofsIso Proofs.ProxTransfer
   Proofs.ProxProofsSmooth Proofs.ProxProofsFirm Proofs.ProxProofsNormSp Proofs.ProxProofsUni
   Base.Tensor Model.Constraints Proofs.ConstraintsProofsKeys Model.ProxDispatch Proofs.ProxProofsDispatch
-  Proofs.ProxProofsMore Proofs.ProxProofsMatrix.
+  Proofs.ProxProofsMore Proofs.ProxProofsMatrix Proofs.ProxProofsRun Proofs.ProxRunTransfer
+  Base.RSum Proofs.ProxProofsSvt Proofs.ProxProofsSvtList.
 Import ListNotations.
 Open Scope R_scope.
 
@@ -305,6 +306,80 @@ Theorem C12_smooth_exec_optimal : forall (t : Q) (v : list Q) (z : list R), 0 <=
 Proof. exact smooth_exec_optimal. Qed.
 Print Assumptions C12_smooth_exec_optimal.
 
+(* ---- proximal_operator end to end (Model/ProxDispatch.proximal_operator: `if n_const is None`, validate_constraints, the twelve-way
+   dispatch on the selected name, parameter passing incl. hard_sparsity's rank bound ceil(p), column-wise / flattened application):
+   for a rectangular tensor the call returns the input (no constraint selected) or a tensor satisfying the feasibility + optimality
+   statement of the selected operator (prox_spec, Proofs/ProxProofsRun.v: per column or on the flattening; unimodality: nothing);
+   it raises exactly when validate_constraints raises; with n_const None it returns the tensor.  Which (kind, parameter) is selected
+   is C12_dispatch_selected.  The same holds for the values the executed rational instance computes. *)
+Theorem C12_proximal_operator_sound : forall n order specs aux nr nc X Y, (1 <= nr)%nat -> (1 <= nc)%nat -> rect nr nc X ->
+  proximal_operator Rops Q2R (Some n) order specs aux X = Ok Y ->
+  exists sel, validate_kwargs n order specs = Ok sel /\
+    match sel with None => Y = X | Some (k, p) => prox_spec k (Q2R p) (rank_bound p) aux Y X end.
+Proof. exact proximal_operator_sound. Qed.
+Print Assumptions C12_proximal_operator_sound.
+Theorem C12_proximal_operator_raises_iff : forall F (Op : fops F) conv n order specs aux X,
+  proximal_operator Op conv (Some n) order specs aux X = Err <-> validate_kwargs n order specs = Err.
+Proof. exact @proximal_operator_raises_iff. Qed.
+Print Assumptions C12_proximal_operator_raises_iff.
+Theorem C12_proximal_operator_no_const : forall F (Op : fops F) conv order specs aux X,
+  proximal_operator Op conv None order specs aux X = Ok X.
+Proof. exact @proximal_operator_no_const. Qed.
+Print Assumptions C12_proximal_operator_no_const.
+Theorem C12_proximal_operator_exec : forall n order specs aux X Y,
+  proximal_operator Qops (fun q : Q => q) n order specs aux X = Ok Y ->
+  proximal_operator Rops Q2R n order specs (Q2R aux) (map (map Q2R) X) = Ok (map (map Q2R) Y).
+Proof. exact proximal_operator_exec. Qed.
+Print Assumptions C12_proximal_operator_exec.
+Theorem C12_proximal_operator_exec_sound : forall n order specs aux nr nc (X Y : list (list Q)), (1 <= nr)%nat -> (1 <= nc)%nat ->
+  length X = nr -> Forall (fun r => length r = nc) X ->
+  proximal_operator Qops (fun q : Q => q) (Some n) order specs aux X = Ok Y ->
+  exists sel, validate_kwargs n order specs = Ok sel /\
+    match sel with
+    | None => Y = X
+    | Some (k, p) => prox_spec k (Q2R p) (rank_bound p) (Q2R aux) (map (map Q2R) Y) (map (map Q2R) X)
+    end.
+Proof. exact proximal_operator_exec_sound. Qed.
+Print Assumptions C12_proximal_operator_exec_sound.
+
+(* ---- procrustes and svd_thresholding, from the exact contract of the SVD oracle (U: m x k with orthonormal columns, V: k x n with
+   orthonormal rows, s >= 0, M = U diag(s) V entrywise; mfun A i j = entry (i, j) of the list-of-rows matrix A, frob = Frobenius inner
+   product, fro2 = squared Frobenius distance, ocols r c A = "the c columns of the r x c matrix A are orthonormal").  No von Neumann
+   trace inequality is assumed: the proofs go through Bessel's inequality for the singular vectors.
+   procrustes (full): the model's output U V maximises <Q, M> over ALL matrices Q with orthonormal columns or orthonormal rows, is a
+   nearest such matrix to M, and is itself such a matrix when V (resp. U) is a square orthogonal matrix (tall / wide input).
+   svd_thresholding (partial in one respect): the model's output minimises t |Z|_* + |Z - M|_F^2 / 2 over the matrices Z PRESENTED WITH a
+   singular value decomposition Z = U' diag(s') V' (|Z|_* = sum s'); that every real matrix has one is classical and not proved here. *)
+Theorem C12_procrustes_max : forall (m n k : nat) (U : list (list R)) (s : list R) (V M : list (list R)),
+  (1 <= k)%nat -> rect m k U -> length s = k -> rect k n V -> ocols m k (mfun U) -> ocols n k (fun j l => mfun V l j) ->
+  Forall (fun x => 0 <= x) s -> (forall i j, (i < m)%nat -> (j < n)%nat -> mfun M i j = compose k (mfun U) (vfun s) (mfun V) i j) ->
+  forall Q : nat -> nat -> R, ocols m n Q \/ ocols n m (fun j i => Q i j) ->
+  frob m n Q (mfun M) <= frob m n (mfun (procrustes_with Rops U V)) (mfun M).
+Proof. exact procrustes_list_max. Qed.
+Print Assumptions C12_procrustes_max.
+Theorem C12_procrustes_nearest : forall (m n k : nat) (U : list (list R)) (s : list R) (V M : list (list R)),
+  (1 <= k)%nat -> rect m k U -> length s = k -> rect k n V -> ocols m k (mfun U) -> ocols n k (fun j l => mfun V l j) ->
+  Forall (fun x => 0 <= x) s -> (forall i j, (i < m)%nat -> (j < n)%nat -> mfun M i j = compose k (mfun U) (vfun s) (mfun V) i j) ->
+  forall Q : nat -> nat -> R, (ocols m n Q /\ n = k) \/ (ocols n m (fun j i => Q i j) /\ m = k) ->
+  fro2 m n (mfun (procrustes_with Rops U V)) (mfun M) <= fro2 m n Q (mfun M).
+Proof. exact procrustes_list_nearest_set. Qed.
+Print Assumptions C12_procrustes_nearest.
+Theorem C12_procrustes_feasible : forall (m n k : nat) (U V : list (list R)),
+  (1 <= k)%nat -> rect m k U -> rect k n V -> ocols m k (mfun U) -> ocols n k (fun j l => mfun V l j) ->
+  (ocols k n (mfun V) -> ocols m n (mfun (procrustes_with Rops U V))) /\
+  (ocols k m (fun l i => mfun U i l) -> ocols n m (fun j i => mfun (procrustes_with Rops U V) i j)).
+Proof. exact procrustes_list_feasible. Qed.
+Print Assumptions C12_procrustes_feasible.
+Theorem C12_svt_optimal_partial : forall (m n k : nat) (U : list (list R)) (s : list R) (V M : list (list R)),
+  (1 <= k)%nat -> rect m k U -> length s = k -> rect k n V -> ocols m k (mfun U) -> ocols n k (fun j l => mfun V l j) ->
+  Forall (fun x => 0 <= x) s -> (forall i j, (i < m)%nat -> (j < n)%nat -> mfun M i j = compose k (mfun U) (vfun s) (mfun V) i j) ->
+  forall (t : R) (k' : nat) (U' : nat -> nat -> R) (s' : nat -> R) (V' : nat -> nat -> R), 0 <= t ->
+  ocols m k' U' -> ocols n k' (fun j l => V' l j) -> (forall l, (l < k')%nat -> 0 <= s' l) ->
+  t * lsum Rops (soft_thresholding Rops t s) + fro2 m n (mfun (svd_thresholding_with Rops U s V t)) (mfun M) / 2
+  <= t * rsum k' s' + fro2 m n (compose k' U' s' V') (mfun M) / 2.
+Proof. exact svt_list_optimal. Qed.
+Print Assumptions C12_svt_optimal_partial.
+
 (* ---- deliberately unfixed operators: refutation (exact rational witness on the executed instance) + what holds *)
 Theorem C12_l1ball_refuted : exists (p : Q) (v : list Q),
   Qle_bool (l1n Qops v) p = true /\ (dist2 Qops v v < dist2 Qops (soft_sparsity_prox Qops p v) v)%Q.
@@ -387,3 +462,19 @@ Example C12_nonvacuous_convexity :
 Proof. exact convexity_instances. Qed.
 Example C12_nonvacuous_rect : rect 2 2 [[3; 0]; [1; 0]].
 Proof. repeat constructor. Qed.
+(* proximal_operator end to end: a dict keyword with a negative key selects the simplex projection of every column on mode 1, nothing on
+   mode 0; a float hard_sparsity parameter keeps ceil(p) entries; a colliding request raises; n_const None returns the tensor *)
+Example C12_nonvacuous_proximal_operator :
+  proximal_operator Qops (fun q : Q => q) (Some 3%nat) 1 [(KSimplex, ZDict [((-2)%Z, 1%Q)])] 0%Q [[3; 0]; [1; 0]]%Q = Ok [[1; (1#2)]; [0; (1#2)]]%Q /\
+  proximal_operator Qops (fun q : Q => q) (Some 3%nat) 0 [(KSimplex, ZDict [((-2)%Z, 1%Q)])] 0%Q [[3; 0]; [1; 0]]%Q = Ok [[3; 0]; [1; 0]]%Q /\
+  proximal_operator Qops (fun q : Q => q) (Some 1%nat) 0 [(KHardSparsity, ZScalar (3#2)%Q)] 0%Q [[3; -1]; [2; 0]]%Q = Ok [[3; 0]; [2; 0]]%Q /\
+  proximal_operator Qops (fun q : Q => q) (Some 2%nat) 0 [(KL1, ZScalar 1%Q); (KNonNeg, ZDict [(1%Z, 1%Q)])] 0%Q [[3; -1]]%Q = Err /\
+  proximal_operator Qops (fun q : Q => q) None 0 [(KL1, ZScalar 1%Q)] 0%Q [[3; -1]]%Q = Ok [[3; -1]]%Q.
+Proof. repeat split; vm_compute; reflexivity. Qed.
+(* the SVD-contract hypotheses of C12_procrustes_* / C12_svt_optimal_partial hold for a 2 x 2 instance (V a permutation matrix) *)
+Example C12_nonvacuous_svd_contract :
+  let U := [[1; 0]; [0; 1]] in let s := [3; 1] in let V := [[0; 1]; [1; 0]] in let M := [[0; 3]; [1; 0]] in
+  rect 2 2 U /\ length s = 2%nat /\ rect 2 2 V /\ ocols 2 2 (mfun U) /\ ocols 2 2 (fun j l => mfun V l j) /\ ocols 2 2 (mfun V) /\
+  Forall (fun x => 0 <= x) s /\ (forall i j, (i < 2)%nat -> (j < 2)%nat -> mfun M i j = compose 2 (mfun U) (vfun s) (mfun V) i j) /\
+  frob 2 2 (mfun U) (mfun U) = INR 2.
+Proof. exact svd_contract_instance. Qed.
